@@ -164,7 +164,7 @@ func (t Band) From(a BandCols) {
 	}
 	for j := 0; j < a.Cols; j++ {
 		for i := max(0, j-a.KU); i < min(j+a.KL+1, a.Rows); i++ {
-			t.Data[j+a.KL-i+i*a.Stride] = a.Data[i+t.KU-j+j*t.Stride]
+			t.Data[j+t.KL-i+i*t.Stride] = a.Data[i+a.KU-j+j*a.Stride]
 		}
 	}
 }
